@@ -25,6 +25,8 @@ type PropCfg struct {
 	// ReportHalt: a failing block hook is a violation of this property (C07 only); every other
 	// property just stops exploring that history.
 	ReportHalt bool
+	// PreOp, when set, runs before an operation is executed (fault enumeration of C07).
+	PreOp func(h *History, o Op) []Violation
 }
 
 var (
@@ -35,7 +37,12 @@ var (
 
 // SharedBase returns the process-wide application instance.
 func SharedBase() *Base {
-	baseOnce.Do(func() { baseInst, baseErr = NewBase() })
+	baseOnce.Do(func() {
+		baseInst, baseErr = NewBase()
+		if baseErr == nil {
+			InstallFaultRestriction(baseInst)
+		}
+	})
 	if baseErr != nil {
 		panic(baseErr)
 	}
@@ -83,13 +90,25 @@ func runHistory(t *rapid.T, cfg PropCfg, col *Collector) {
 		t.Fatalf("VIOLATION %s [%s]\n%s\nhistory:\n%s", cfg.ID, v.Sig, v.Msg, h.Describe())
 	}
 	exec := func(o Op) bool {
+		if cfg.Weights.Extreme && excludeOverflow && len(h.Steps) > 0 && overflowGuard(h.Steps[len(h.Steps)-1].Post, o) {
+			// known finding F16 (Int overflow in the matching) is excluded by construction
+			col.mu.Lock()
+			col.Excluded["C07/block-panicked/int-overflow-in-matching"]++
+			col.mu.Unlock()
+			return true
+		}
+		if cfg.PreOp != nil && len(h.Steps) > 0 {
+			for _, v := range cfg.PreOp(h, o) {
+				fail(v)
+			}
+		}
 		st, vs := h.Exec(o, mon)
 		for _, v := range vs {
 			fail(v)
 		}
 		if st.Op.Kind == OpBlock && !st.Res.OK {
 			if cfg.ReportHalt {
-				fail(viol(cfg.ID+"/block-failed", "block processing failed at %s: %s", tfmt(st.Now), st.Res.Err))
+				fail(viol(blockFailSig(st.Res), "block processing failed at %s: %s\n%s", tfmt(st.Now), st.Res.Err, firstLines(st.Res.Panic, 30)))
 			}
 			return false
 		}
@@ -181,13 +200,18 @@ func ReplayK(t *testing.T, cfg PropCfg, path string) {
 		t.Errorf("VIOLATION %s [%s]\n%s", cfg.ID, v.Sig, v.Msg)
 	}
 	for _, o := range r.Ops {
+		if cfg.PreOp != nil && len(h.Steps) > 0 {
+			for _, v := range cfg.PreOp(h, o) {
+				report(v)
+			}
+		}
 		st, vs := h.Exec(o, mon)
 		for _, v := range vs {
 			report(v)
 		}
 		if st.Op.Kind == OpBlock && !st.Res.OK {
 			if cfg.ReportHalt {
-				report(viol(cfg.ID+"/block-failed", "block processing failed at %s: %s", tfmt(st.Now), st.Res.Err))
+				report(viol(blockFailSig(st.Res), "block processing failed at %s: %s", tfmt(st.Now), st.Res.Err))
 			}
 			break
 		}
@@ -251,3 +275,15 @@ func FlushEvidence() {
 		c.Write(os.Getenv("VERIF_EVIDENCE_OUT"))
 	}
 }
+
+func firstLines(s string, n int) string {
+	ls := strings.Split(s, "\n")
+	if len(ls) > n {
+		ls = ls[:n]
+	}
+	return strings.Join(ls, "\n")
+}
+
+// excludeOverflow switches the by-construction exclusion of the decimal-overflow region on. It is
+// off since that finding (F16) was repaired in the repository; the guard is kept for reference.
+var excludeOverflow = os.Getenv("VERIF_EXCLUDE_OVERFLOW") == "1"
